@@ -28,7 +28,7 @@ def consistent(edge_cls, vtypes, est, off, shape, ids):
 def distinct_names_hook(d):
     """ids are opaque, pairwise distinct names: the difference of two different id symbols is non-zero."""
     vs = d.variables()
-    if len(vs) == 2 and len(d.t) == 2 and all(v.startswith(("id", "other_id", "unknown")) for v in vs) and \
+    if len(vs) == 2 and len(d.t) == 2 and all(v.startswith(("id", "pid", "oid", "other_id", "unknown")) for v in vs) and \
             sorted(d.t.values()) == [-1, 1] and d.total_degree() == 1:
         return {-1, 1}
     return None
@@ -145,6 +145,33 @@ def binding_obligation():
                 n_checked += 1
         return dict(bindings=n_checked)
     return lambda pkg: run_obligation(pkg, fn)
+
+
+def concrete_ids_obligation(idset):
+    """Binding with integer ids (0..N-1 in every list order; negative / sparse / huge ids): an id is a name, not a position."""
+    def fn(it):
+        n_checked = 0
+        for perm in itertools.permutations(range(len(idset))):
+            ids = [Poly.const(idset[k]) for k in perm]            # list order = perm
+            verts = [it.construct("Vertex", [ids[k], sym_pose("PoseR2", "p%d" % k)]) for k in range(len(ids))]
+            edges = []
+            for a in range(len(ids)):
+                b = (a + 1) % len(ids)
+                e = Obj("BaseEdge", vertex_ids=[ids[a], ids[b]], vertices=None, information=None, estimate=None)
+                e.stubs["is_valid"] = (lambda e=e: all(v.fields["id"] == w for v, w in zip(e.fields["vertices"], e.fields["vertex_ids"])))
+                edges.append((e, a, b))
+            try:
+                it.construct("Graph", [[e for e, _, _ in edges], verts])
+            except PathRaise as ex:
+                raise ObFail("a consistent graph whose vertex ids are %s in list order is rejected (%s)" % ([idset[k] for k in perm], ex.exc))
+            for e, a, b in edges:
+                bound = e.fields.get("vertices")
+                if not isinstance(bound, list) or len(bound) != 2 or bound[0] is not verts[a] or bound[1] is not verts[b]:
+                    raise ObFail("with vertex ids %s in list order, the edge naming ids (%s, %s) is bound to other vertices" % (
+                        [idset[k] for k in perm], idset[perm[a]], idset[perm[b]]))
+                n_checked += 1
+        return dict(bindings=n_checked, ids=list(idset))
+    return lambda pkg: _run_ob(pkg, fn)
 
 
 def prebound_obligation():
@@ -293,6 +320,8 @@ def run(run_, pkg, tier):
     btasks = [("C18-B1/Graph._initialize/binding", "C18-B1-bind-by-id", binding_obligation(), where),
               ("C18-B1/Graph._initialize/unknown-id-raises", "C18-B1-bind-by-id", unknown_id_obligation(), where),
               ("C18-B1/Graph._initialize/prebound-edges-rebound", "C18-B1-bind-by-id", prebound_obligation(), where),
+              ("C18-B1/Graph._initialize/integer-ids-0..3", "C18-B1-bind-by-id", concrete_ids_obligation([0, 1, 2, 3]), where),
+              ("C18-B1/Graph._initialize/integer-ids-sparse", "C18-B1-bind-by-id", concrete_ids_obligation([-5, 0, 7, 10 ** 12]), where),
               ("C18-B1/Graph._initialize/invalid-edge-raises[False]", "C18-B1-validity-asserted", invalid_edge_obligation(False), where),
               ("C18-B1/Graph._initialize/invalid-edge-raises[None]", "C18-B1-validity-asserted", invalid_edge_obligation(None), where)]
     btasks = [t for t in btasks if run_.wants(t[0])]
